@@ -209,6 +209,18 @@ func (d docGen) bigDoc() interface{} {
 			a[i] = d.leaf()
 		}
 	}
+	if chance(25) {
+		// a WIDE OBJECT with the same members (names that sort differently from their
+		// insertion order), bare or below a name
+		m := make(map[string]interface{}, n)
+		for i := range a {
+			m["k"+strconv.Itoa((i*7919)%n)+pick([]string{"", "", "x", "-"})] = a[i]
+		}
+		if chance(50) {
+			return m
+		}
+		return map[string]interface{}{"a": m, "b": d.leaf()}
+	}
 	if chance(50) {
 		return a
 	}
